@@ -60,6 +60,10 @@ def leaves_single(x=X):
         ("cmp", "ge", ("c", x, "get_p", ()), ("c", A(x, "ref"), "get_q", ())),
         ("cmp", "eq", ("i", A(x, "t"), 0), p), ("cmp", "ne", ("i", A(x, "s"), 0), L("y")),
         ("pf", "p_eq", (x, L(2))), ("pc", "PEq", (x, L(2))),
+        # non-boolean values in condition position are read by their truthiness (all truthy here, so their negation is
+        # false for every object)
+        ("t", A(x, "t")), ("t", A(x, "s")), ("t", p), ("t", ("i", A(x, "d"), "k")), ("t", ("c", x, "get_p", ())),
+        ("t", A(x, "ref")),
         # predicates over two expressions of the same variable: both arguments must come from one binding
         ("pf", "val_eq", (p, q)), ("pc", "PLt", (x, A(x, "ref"))),
     ]
